@@ -80,8 +80,17 @@ namespace verif
         inline Pistache::Async::Promise<Pistache::Http::Response> send(Pistache::Http::Experimental::Client& client, const std::string& hostport, const ReqSpec& r, int timeout_ms = 0)
         {
             using namespace Pistache::Http;
-            auto b = client.get(hostport + r.path);
-            b.method(r.method);
+            // two doors for the method: the per-method members of the client (get/post/put/patch/del) or get() followed by
+            // RequestBuilder::method() (by the path's length, no choice consumed; OPTIONS, HEAD ... have no member)
+            const std::string url = hostport + r.path;
+            const bool member     = r.path.size() % 2 == 0;
+            auto b                = member && r.method == Method::Post ? client.post(url)
+                               : member && r.method == Method::Put      ? client.put(url)
+                               : member && r.method == Method::Patch    ? client.patch(url)
+                               : member && r.method == Method::Delete   ? client.del(url)
+                                                                        : client.get(url);
+            if (!member || (r.method != Method::Post && r.method != Method::Put && r.method != Method::Patch && r.method != Method::Delete && r.method != Method::Get))
+                b.method(r.method);
             if (!r.query.empty())
             {
                 Uri::Query q;
@@ -117,7 +126,12 @@ namespace verif
                 b.cookie(k);
             }
             if (!r.body.empty())
-                b.body(r.body);
+            {
+                if (r.body.size() % 2)
+                    b.body(std::string(r.body)); // the rvalue overload
+                else
+                    b.body(r.body);
+            }
             if (timeout_ms)
                 b.timeout(std::chrono::milliseconds(timeout_ms));
             return b.send();
